@@ -87,7 +87,7 @@ theorem scanner_eq_regex_units (tbl : List (List Str)) (hok : tbl.all unitWordsO
 /-! ## the table -/
 
 /-- the sources of the generated syntax table -/
-theorem regexAsts_keys : Gen.regexAsts.map (·.1) = [":?=", ",", "\\(", "\\)", "\\{", "\\}", "%", "\\*", "(?i)(remaining|remainder|rest|left[ \t]*over)\\b", "(?i)of([ \t]+the)?\\b", "(?i)(@KNOWN_UNITS@)\\b", "[^\"',:=/(){}\\s]([^\"',:=/(){}\n\r]*[^\"',:=/(){}\\s])?", "\"", "\\\\", ".", "[^\"\n\r]", "'", "[^'\n\r]", "[^0-9{}\n\r]", "[0-9]+", "/", "0*[1-9][0-9]*", "[0-9]+(\\.[0-9]*)?", "\\s+", "[ \t]+", "[ \t]*[\r\n]\\s*", "[ \t]*"] := by decide +kernel
+theorem regexAsts_keys : Gen.regexAsts.map (·.1) = ["\"", "%", "'", "(?i)(@KNOWN_UNITS@)\\b", "(?i)(remaining|remainder|rest|left[ \t]*over)\\b", "(?i)of([ \t]+the)?\\b", ",", ".", "/", "0*[1-9][0-9]*", ":?=", "[ \t]*", "[ \t]*[\r\n]\\s*", "[ \t]+", "[0-9]+", "[0-9]+(\\.[0-9]*)?", "[^\"\n\r]", "[^\"',:=/(){}\\s]([^\"',:=/(){}\n\r]*[^\"',:=/(){}\\s])?", "[^'\n\r]", "[^0-9{}\n\r]", "\\(", "\\)", "\\*", "\\\\", "\\s+", "\\{", "\\}"] := by decide +kernel
 
 /-- every terminal of the generated grammar has a generated syntax -/
 theorem terminals_have_syntax :
@@ -106,33 +106,35 @@ theorem all_terminals_are_their_regexes :
   rw [List.contains_iff_mem, regexAsts_keys] at h
   simp only [List.mem_cons, List.mem_nil_iff, or_false] at h
   rcases h with rfl | rfl | rfl | rfl | rfl | rfl | rfl | rfl | rfl | rfl | rfl | rfl | rfl | rfl | rfl | rfl | rfl | rfl | rfl | rfl | rfl | rfl | rfl | rfl | rfl | rfl | rfl
-  · exact scanner_eq_regex_assign
-  · exact scanner_eq_regex_comma
-  · exact scanner_eq_regex_lparen
-  · exact scanner_eq_regex_rparen
-  · exact scanner_eq_regex_lbrace
-  · exact scanner_eq_regex_rbrace
-  · exact scanner_eq_regex_percent
-  · exact scanner_eq_regex_asterisk
-  · exact scanner_eq_regex_remainder
-  · exact scanner_eq_regex_preposition
-  · exact scanner_eq_regex_known_unit
-  · exact scanner_eq_regex_naked_string
-  · exact scanner_eq_regex_dquote
-  · exact scanner_eq_regex_backslash
-  · exact scanner_eq_regex_any
-  · exact scanner_eq_regex_dquoted_char
-  · exact scanner_eq_regex_squote
-  · exact scanner_eq_regex_squoted_char
-  · exact scanner_eq_regex_bracketed_char
-  · exact scanner_eq_regex_digits
-  · exact scanner_eq_regex_slash
-  · exact scanner_eq_regex_denominator
-  · exact scanner_eq_regex_decimal
-  · exact scanner_eq_regex_sp
-  · exact scanner_eq_regex_hsp
-  · exact scanner_eq_regex_eol_break
-  · exact scanner_eq_regex_ohsp
+  -- (whatever order the generated table lists the sources in)
+  all_goals first
+    | exact scanner_eq_regex_assign
+    | exact scanner_eq_regex_comma
+    | exact scanner_eq_regex_lparen
+    | exact scanner_eq_regex_rparen
+    | exact scanner_eq_regex_lbrace
+    | exact scanner_eq_regex_rbrace
+    | exact scanner_eq_regex_percent
+    | exact scanner_eq_regex_asterisk
+    | exact scanner_eq_regex_remainder
+    | exact scanner_eq_regex_preposition
+    | exact scanner_eq_regex_known_unit
+    | exact scanner_eq_regex_naked_string
+    | exact scanner_eq_regex_dquote
+    | exact scanner_eq_regex_backslash
+    | exact scanner_eq_regex_any
+    | exact scanner_eq_regex_dquoted_char
+    | exact scanner_eq_regex_squote
+    | exact scanner_eq_regex_squoted_char
+    | exact scanner_eq_regex_bracketed_char
+    | exact scanner_eq_regex_digits
+    | exact scanner_eq_regex_slash
+    | exact scanner_eq_regex_denominator
+    | exact scanner_eq_regex_decimal
+    | exact scanner_eq_regex_sp
+    | exact scanner_eq_regex_hsp
+    | exact scanner_eq_regex_eol_break
+    | exact scanner_eq_regex_ohsp
 
 /-- the same, as an equation about whatever the two tables hold for a terminal of the grammar -/
 theorem scanner_eq_regex {re : String} (hre : re ∈ Gen.grammarRules.flatMap (fun r => r.2.terminals)) {scan : P Unit} {r : Rx}
